@@ -14,7 +14,7 @@ THEOREMS = [
     "Mtv.Client.never_stalls",
     "Mtv.Client.answered_after_rotation",
 ]
-RULE = ('scenarios with 1..6 (thorough 12) pending requests and 1..4 rotations: bad_server_salt for a random unanswered request (the same request may be rejected repeatedly), other requests answered before or after, new_session_created in between; checks: only the rejected request is written again and under the new salt, accepted requests appear once, every call returns its own answer, the run completes (no stall), the store received every adopted salt in order. About half of the scenarios run on the FILE session store (session.NewFromFile on a file left by an earlier run, modification time an hour ago) instead of the in-memory store of the harness: after every Store an independent reader of the harness reads the salt back from the file, and only what it finds there counts as written — two and more announcements per run (rotations, new_session_created, both), with an injected refusal or a slow write in between. distinct = distinct scenarios')
+RULE = ('scenarios with 1..6 (thorough 12) pending requests and 1..4 rotations: bad_server_salt for a random unanswered request (the same request may be rejected repeatedly), other requests answered before or after, new_session_created in between; checks: only the rejected request is written again and under the new salt, accepted requests appear once, every call returns its own answer, the run completes (no stall), the store received every adopted salt in order. Announced salts REPEAT earlier values in about half of the random scenarios and in fixed ones (the scenarios start from a stored session with salt 1000): back to the salt of the stored session after another one, A -> B -> A, the same salt twice in a row, the stored salt announced first, zero, negative values, the extremes of int64, by bad_server_salt and by new_session_created - every adopted salt must reach the store, in order. About half of the scenarios run on the FILE session store (session.NewFromFile on a file left by an earlier run, modification time an hour ago) instead of the in-memory store of the harness: after every Store an independent reader of the harness reads the salt back from the file, and only what it finds there counts as written — two and more announcements per run (rotations, new_session_created, both), with an injected refusal or a slow write in between. distinct = distinct scenarios')
 
 
 def run(ctx):
